@@ -280,8 +280,11 @@ def check_e2e_sweep(ctx, cases, ops):
         base, out, bad = [tuple(x) for x in c["base"] or []], [tuple(x) for x in c["out"] or []], None
         if c["outcome"] != "ok" or len(base) != c["n"]:
             bad = "outcome %s, %d base rows for %d triples" % (c["outcome"], len(base), c["n"])
-        elif c["op"] == "having":
-            want = [(s, o, 0) for s, o in base if o > c["k"]]
+        elif c["op"] in ("having", "having_lt", "having_notlast"):
+            last = base[-1][0] if base else None
+            keep = {"having": lambda s, o: o > c["k"], "having_lt": lambda s, o: o < c["k"],
+                    "having_notlast": lambda s, o: s != last}[c["op"]]
+            want = [(s, o, 0) for s, o in base if keep(s, o)]
             if out != want:
                 bad = "HAVING kept %d rows, the filter of the base rows has %d (or other rows / order)" % (len(out), len(want))
         elif c["op"] == "orderlimit":
